@@ -64,7 +64,9 @@ def gen_sunearth(seed, shard, n):
         lj, bj, rj = Earth.geometric_heliocentric_position_j2000(Epoch(t))
         ld, bd, rd = Earth.geometric_heliocentric_position(Epoch(t), tofk5=False)
         l2, b2 = C.precession_ecliptical(Epoch(t), Epoch(J2000), ld, bd)
-        yield {"k": "frame", "yf": y, "tf": t, "inr": inr, "R": fx(Rs), "ud": F3(ud), "nd": fx(nd), "uJ": F3(uJ), "nJ": fx(nJ),
+        eps0 = math.radians(float(C.mean_obliquity(Epoch(t))))
+        yield {"k": "frame", "use": F3(U(float(Ls), float(Bs))), "ce0": fx(math.cos(eps0)), "se0": fx(math.sin(eps0)),
+               "yf": y, "tf": t, "inr": inr, "R": fx(Rs), "ud": F3(ud), "nd": fx(nd), "uJ": F3(uJ), "nJ": fx(nJ),
                "uB": F3(uB), "nB": fx(nB), "uE": F3(uE), "nE": fx(nE), "pJ": F3(pJ), "pB": F3(pB), "pE": F3(pE),
                "ueJ": F3(U(float(lj), float(bj))), "peJ": F3(U(float(l2), float(b2))), "jq": jq}
         # obliquity and nutation; the date in every accepted form
